@@ -708,7 +708,7 @@ myth_thread_t myth_wsapi_runqueue_take(int victim,
   MYTH_VERIF_POINT(12);
 #if QUICK_CHECK_ON_STEAL
   if (q->top-q->base<=0){
-    MYTH_VERIF_EVZ3("QTakeEx", victim, 0, 0);
+    MYTH_VERIF_EVQZ3("QTakeEx", victim, 0, 0, q->top - q->base);
     return NULL;
   }
 #endif
@@ -719,7 +719,7 @@ myth_thread_t myth_wsapi_runqueue_take(int victim,
   //#if TRY_LOCK_BEFORE_STEAL
 #if 1
   if (!myth_wsqueue_lock_trylock(&q->lock)){
-    MYTH_VERIF_EVZ3("QTakeEx", victim, 0, 0);
+    MYTH_VERIF_EVQZ3("QTakeEx", victim, 0, 0, q->top - q->base);
     return NULL;
   }
 #else
@@ -746,7 +746,7 @@ myth_thread_t myth_wsapi_runqueue_take(int victim,
       //Increment sequence
       myth_wsqueue_wbarrier();
       wc->seq=s+2;
-      MYTH_VERIF_EVZ3("QTakeEx", victim, VD(ret), VD(ret));
+      MYTH_VERIF_EVQZ3("QTakeEx", victim, VD(ret), VD(ret), q->top - q->base);
       myth_wsqueue_lock_unlock(&q->lock);
 #if USE_LOCK || USE_LOCK_TAKE
       myth_spin_unlock_body(&q->m_lock);
@@ -756,7 +756,7 @@ myth_thread_t myth_wsapi_runqueue_take(int victim,
     myth_wsqueue_wbarrier();
   }
   q->base=b;
-  MYTH_VERIF_EVZ3("QTakeEx", victim, (b < top) ? VD(q->ptr[b]) : 0, 0);
+  MYTH_VERIF_EVQZ3("QTakeEx", victim, (b < top) ? VD(q->ptr[b]) : 0, 0, q->top - q->base);
   myth_wsqueue_lock_unlock(&q->lock);
 #if USE_LOCK || USE_LOCK_TAKE
   myth_spin_unlock_body(&q->m_lock);
